@@ -687,7 +687,15 @@ def run(prop, tier, sd, rep, clauses, modes):
         # ---- is the design-level exploration about THIS generator?  Every explored declaration is generated for real and the
         # generated program compared with the planned one.  Where they differ, the exploration above says nothing: those
         # declarations (with each provider fallible in turn) are built and executed, and judged like the batch.
-        gnchk, gdiff, gprogs, grefused = design.generator_conformance(w, cli, list(dbyid.values()), name='gconf')
+        gdecls = list(dbyid.values())
+        if quick:
+            # conformance only (no exploration of the plan): a seeded sample of the declarations with 5 providers
+            five = [d_ for d_ in design.enumerate_decls(5, sd, None, 0.2 if prop == 'C07' else 0.5) if len(d_['providers']) == 5]
+            for d_ in random.Random(sd + 5).sample(five, 800):
+                d_ = dict(d_, id='v' + d_['id'][1:], injector='Init_v' + d_['id'][1:])
+                gdecls.append(d_)
+                dbyid[d_['id']] = d_
+        gnchk, gdiff, gprogs, grefused = design.generator_conformance(w, cli, gdecls, name='gconf')
         if grefused:
             rep.notes.append('the generator refuses %d declarations of the design-level exploration: %s' % (len(grefused), grefused[:5]))
         gnew = []
@@ -695,10 +703,30 @@ def run(prop, tier, sd, rep, clauses, modes):
             rep.notes.append('the generator plans %d of the %d declarations of the design-level exploration differently from Planner.tla: '
                              'they are executed for real (%s ...)' % (len(gdiff), gnchk, gdiff[:6]))
             rngd = random.Random(sd)
-            pickd = sorted(gdiff) if len(gdiff) <= 16 else sorted(rngd.sample(sorted(gdiff), 16))
+            # (a) the extracted programs of the differing declarations, explored exhaustively by TLC; what the model shows
+            #     beyond the known findings' scope is taken to the real code below
+            xdiff = sorted(gdiff) if len(gdiff) <= 400 else sorted(rngd.sample(sorted(gdiff), 400))
+            xs = design.program_signatures(w, [dbyid[i] for i in xdiff], gprogs, clauses, modes, signature, name='gdiffx')
+            xplanned = design.planned_signatures(w, [dbyid[i] for i in xs if xs[i]], clauses, modes, signature, name='gdiffxp') if any(xs.values()) else {}
+            suspects = []
+            for i in sorted(xs):
+                for sg_, fl_ in sorted(xs[i], key=str):
+                    if sg_ in opn and (i not in xplanned or (sg_, fl_) in xplanned[i]):
+                        continue
+                    suspects.append((sg_, i))
+            seen_s = set()
+            pick_first = []
+            for sg_, i in suspects:
+                if sg_ not in seen_s or len([1 for s2_, _ in pick_first if s2_ == sg_]) < 2:
+                    seen_s.add(sg_)
+                    if i not in [j for _, j in pick_first]:
+                        pick_first.append((sg_, i))
+            pick_first = [i for _, i in pick_first][:10]
+            rest = [i for i in sorted(gdiff) if i not in pick_first]
+            pickd = pick_first + (rest if len(rest) <= 16 else sorted(rngd.sample(rest, 16)))
             cand = []
             for i in pickd:
-                cand += design.fallible_variants(dbyid[i]) if modes != 'none' else [dbyid[i]]
+                cand += ([dbyid[i]] + design.fallible_variants(dbyid[i])) if modes != 'none' else [dbyid[i]]
             got, ran = real_signatures(w, cli, cand, prop, clauses, modes, sd, maxruns, 'gdiff')
             planned = design.planned_signatures(w, [c for c in cand if c['id'] in ran], clauses, modes, signature, name='gdiffscope') if got else {}
             for sig, info in sorted(got.items()):
